@@ -725,11 +725,13 @@ class Emitter:
             if self.inline:
                 b = inline_helpers(b, self.helpers_now(), rules)
             inserts = []  # (pos, text)
+            lost_hints = []
             if loops:
                 lp = find_loops(b)
                 for n, txt in loops.items():
                     if n < 1 or n > len(lp):
-                        raise Lost('loop %d not found in %s (has %d)' % (n, hdr, len(lp)))
+                        lost_hints.append('loop %d' % n)
+                        continue
                     inserts.append((lp[n - 1], '\n' + '\n'.join(txt) + '\n'))
                 rules.append('E4-loop')
             for rx, txt in hints:
@@ -743,7 +745,10 @@ class Emitter:
                     continue
                 ms = [m for m in re.finditer(rx, b, re.M)]
                 if len(ms) != 1:
-                    raise Lost('hint anchor /%s/ matched %d times in %s' % (rx, len(ms), hdr))
+                    # the function was reshaped: the hint is dropped (never guessed); a failure
+                    # of this function is then UNDECIDED, not a violation (check reads lost_hints)
+                    lost_hints.append(rx)
+                    continue
                 ls = b.rfind('\n', 0, ms[0].start()) + 1
                 inserts.append((ls, '\n'.join(txt) + '\n'))
                 rules.append('E4-hint')
@@ -754,7 +759,7 @@ class Emitter:
         self.functions.append(dict(id=fid, tags=tags, mode=mode, out_lines=[start_line, end_line],
                                    sig_end=sig_end, contract_lines=[sig_end, contract_end - 1],
                                    src_file=rel, src_lines=[line_of(src, it['start']), line_of(src, it['end'])],
-                                   rules=rules, body_sha256=body_hash,
+                                   rules=rules, body_sha256=body_hash, lost_hints=(lost_hints if mode == 'body' else []),
                                    contract=[l.strip() for l in contract if l.strip()]))
         return i
 
